@@ -41,7 +41,8 @@ CONSTANTS CopyMode,     \* "rebuild": target = deep_update({}, source)  (repaire
           Group,        \* "update" (fold mode): the language has option groups selected by a language standard, like C++:
                         \*   root key 1 = `options`, root key 2 = `defaults`, options key 1 = `std`; the leaf identity of std
                         \*   names the standard, defaults[<that name>] is the documented block of options.
-                        \*   "setdefault": negative control (the block only fills gaps).  "none": no groups.
+                        \*   "setdefault" / "partial": negative controls (the block only fills gaps / one documented key is
+                        \*   missing from the shipped block).  "none": no groups.
           Record,       \* TRUE: keep the history for case emission
           Slice, NSlices \* the shapes of document 2 are split into NSlices parts, this run explores part Slice
                         \* (TLC barely scales with -workers on this model; the harness runs the parts as parallel JVMs)
@@ -137,9 +138,11 @@ UFold4  == <<{M(1 :> X(0)), M((1 :> X(0)) @@ (2 :> X(0))), M(1 :> M((1 :> X(0)) 
 ShapesPathQ == {M(<<>>), M(1 :> X(0)), M(1 :> D(0)), M(1 :> M(1 :> X(0))), M(1 :> M(1 :> M(1 :> X(0)))),
                 M(1 :> M(1 :> M(1 :> D(0)))), M(1 :> M((1 :> M(1 :> X(0))) @@ (2 :> M(1 :> X(0)))))}
 UHistQ  == <<{M(<<>>), M(1 :> X(0)), M((1 :> X(0)) @@ (2 :> X(0)))}, ShapesPathQ, ShapesPathQ>>
-UGroup  == <<{M((1 :> M((1 :> X(0)) @@ (2 :> X(0)))) @@ (2 :> M(2 :> M((1 :> X(1)) @@ (2 :> X(1))))))},   \* options {std, k2}, defaults {2: {std, k2}}
-             Shapes3(FALSE), Shapes3(TRUE)>>
-UGroupNeg == <<{M((1 :> M((1 :> X(0)) @@ (2 :> X(0)))) @@ (2 :> M(2 :> M((1 :> X(1)) @@ (2 :> X(1))))))}, {M(1 :> M(1 :> X(0)))}, {M(<<>>)}>>
+GroupBuiltin == M((1 :> M((1 :> X(0)) @@ (2 :> X(0)))) @@ (2 :> M((2 :> M((1 :> X(1)) @@ (2 :> X(1)))) @@ (3 :> M((1 :> X(1)) @@ (2 :> X(1)))))))
+                \* options {std, k2}, defaults {2: {std, k2}, 3: {std, k2}}
+UGroup  == <<{GroupBuiltin}, Shapes3(FALSE), Shapes3(TRUE)>>
+UGroup4 == <<{GroupBuiltin}, Shapes3(FALSE), Shapes3(FALSE), ShapesPath(TRUE)>>    \* a lower file, the file that may select, the override
+UGroupNeg == <<{GroupBuiltin}, {M(1 :> M(2 :> X(0)))}, {M(1 :> M(1 :> X(0)))}, {M(<<>>)}>>   \* low file perturbs k2, next file selects
 UOrderQ == <<{M(1 :> X(0)), M((1 :> X(0)) @@ (2 :> X(0))), M(1 :> M((1 :> X(0)) @@ (2 :> X(0))))}, Shapes3(FALSE), ShapesPath(TRUE)>>
 UNegHist == <<{M(1 :> X(0))}, {M(1 :> M(1 :> M(1 :> X(0))))}, {M(1 :> M(1 :> M(1 :> X(0))))}>>
 UHist   == <<{M(<<>>), M(1 :> X(0)), M((1 :> X(0)) @@ (2 :> X(0)))}, ShapesPath(TRUE), ShapesPath(TRUE)>>
@@ -276,11 +279,16 @@ DUReturnRoot ==
 
 (* Language.__init__ -> cpp._validate_language_options(defaults, options): the block of the selected standard is    *)
 (* written over the options map of the configuration, in place; then the context exists.                            *)
-(* P: every option of the documented block is set as a unit (GroupApply); options that a non-built-in source        *)
-(* mentions are not fixed (AnyV).                                                                                  *)
-Mentioned ==
-    UNION {IF 1 \in DOMAIN doc0[d].m /\ IsMap(doc0[d].m[1]) THEN {key \in DOMAIN doc0[d].m[1].m : doc0[d].m[1].m[key].k # "d"} ELSE {}
-           : d \in 2..NDocs}
+(* P: every option of the DOCUMENTED block (DocGroups, a constant of the statement - not the `defaults` of the        *)
+(* configuration) is set as a unit (GroupApply), whatever lower-precedence sources put there; options that the source   *)
+(* which selected the standard, or a higher one, gives explicitly are not fixed (AnyV); if a user source redefines     *)
+(* `defaults` nothing is fixed.  The identity of the std leaf is the index of the document that set it.                 *)
+DocBlk == (1 :> X(11)) @@ (2 :> X(11))
+DocGroups == (2 :> DocBlk) @@ (3 :> DocBlk)
+ExplicitOpts(d) ==
+    IF 1 \in DOMAIN doc0[d].m /\ IsMap(doc0[d].m[1]) THEN {key \in DOMAIN doc0[d].m[1].m : doc0[d].m[1].m[key].k # "d"} ELSE {}
+Protected(stdv) == UNION {ExplicitOpts(d) : d \in (IF stdv \in 2..NDocs THEN stdv ELSE 2)..NDocs}
+Redefined == \E d \in 2..NDocs : 2 \in DOMAIN doc0[d].m
 ValidateOptions ==
     /\ op.kind = "validate"
     /\ LET r == broot[op.b]
@@ -292,14 +300,17 @@ ValidateOptions ==
                   /\ heap[o][1].v \in DOMAIN heap[df] /\ heap[df][heap[o][1].v].k = "r"       \* if language_standard in defaults
            blk == heap[heap[df][heap[o][1].v].v]
            nh == IF sel THEN [heap EXCEPT ![o] = [key \in (DOMAIN @) \cup DOMAIN blk |->
-                                                       IF key \in DOMAIN blk /\ (Group = "update" \/ key \notin DOMAIN @) THEN blk[key] ELSE @[key]]]
+                                                       IF /\ key \in DOMAIN blk
+                                                          /\ (Group = "update" \/ (Group = "setdefault" /\ key \notin DOMAIN @)
+                                                              \/ (Group = "partial" /\ key # 2))
+                                                       THEN blk[key] ELSE @[key]]]
                  ELSE heap
            m == pcfg[op.b]
-           pmaps == 1 \in DOMAIN m /\ IsMap(m[1]) /\ 2 \in DOMAIN m /\ IsMap(m[2]) /\ 1 \in DOMAIN m[1].m
+           pmaps == 1 \in DOMAIN m /\ IsMap(m[1]) /\ 1 \in DOMAIN m[1].m
            std == m[1].m[1]
-           psel == pmaps /\ std.k \in {"x", "d"} /\ std.v \in DOMAIN m[2].m /\ IsMap(m[2].m[std.v])
-           np == IF pmaps /\ std.k = "any" THEN Put(m, 1, AnyV)            \* the statement does not say which standard is selected
-                 ELSE IF psel THEN Put(m, 1, M(GroupApply(m[1].m, m[2].m[std.v].m, Mentioned)))
+           psel == pmaps /\ std.k \in {"x", "d"} /\ std.v \in DOMAIN DocGroups
+           np == IF pmaps /\ (std.k = "any" \/ Redefined) THEN Put(m, 1, AnyV)   \* the statement does not say which group is meant
+                 ELSE IF psel THEN Put(m, 1, M(GroupApply(m[1].m, DocGroups[std.v], Protected(std.v))))
                  ELSE m
        IN /\ heap' = nh
           /\ pcfg' = [pcfg EXCEPT ![op.b] = np]
